@@ -172,8 +172,8 @@ static inline bool execute(const Case &c, const Fam &f, pbt::Ctx &ctx, Stats &st
         uint8_t *cx = A.alloc("ctx", ctx_size(f.kind), 16, guard::END, c.prefill);
         int rc = 0;
         bool ok = guard::guarded_call(fi, [&] {
-                if (f.kind == MH_MURMUR) rc = ((init_seed_fn) f.init)(cx, c.murmur_seed);
-                else rc = ((init_fn) f.init)(cx);
+                if (f.kind == MH_MURMUR) rc = (int) isal::call_fn(f.init, { (uint64_t) cx, c.murmur_seed });
+                else rc = (int) isal::call_fn(f.init, { (uint64_t) cx });
         });
         if (!ok) {
                 A.describe(fi);
@@ -205,7 +205,7 @@ static inline bool execute(const Case &c, const Fam &f, pbt::Ctx &ctx, Stats &st
                         st.cross = true;
                         if (carried && c.pieces.size() >= 2) st.carry_cross = true;
                 }
-                ok = guard::guarded_call(fi, [&] { rc = ((update_fn) f.update)(cx, b, (uint32_t) p.len); });
+                ok = guard::guarded_call(fi, [&] { rc = (int) isal::call_fn(f.update, { (uint64_t) cx, (uint64_t) b, (uint64_t) (uint32_t) p.len }); });
                 if (!ok) {
                         A.describe(fi);
                         return !failx("fault-update", "fault in update " + std::to_string(i) + " (len " + std::to_string(p.len) + ", stream offset " + std::to_string(off) + "): " + fi.where);
@@ -219,8 +219,8 @@ static inline bool execute(const Case &c, const Fam &f, pbt::Ctx &ctx, Stats &st
         uint8_t *dg = A.alloc("digest", 4 * nw, 1, guard::END, 0x5e);
         uint8_t *mg = A.alloc("murmur-digest", 16, 1, guard::END, 0x5f);
         ok = guard::guarded_call(fi, [&] {
-                if (f.kind == MH_MURMUR) rc = ((final2_fn) f.finalize)(cx, dg, mg);
-                else rc = ((final_fn) f.finalize)(cx, dg);
+                if (f.kind == MH_MURMUR) rc = (int) isal::call_fn(f.finalize, { (uint64_t) cx, (uint64_t) dg, (uint64_t) mg });
+                else rc = (int) isal::call_fn(f.finalize, { (uint64_t) cx, (uint64_t) dg });
         });
         if (!ok) {
                 A.describe(fi);
